@@ -291,7 +291,9 @@ def checkC10 (b : Book) (s : C10St) : CEv → C10St × Option String
       if s.closeSeen then (s, some "write after poll_close in the same poll") else (s, none)
   | .obs (.tNext _ .eof) => ({ s with eofSeen := true }, none)
   | .obs (.ret (.dispatch _) r) =>
-      if s.eofSeen && r != .readyOk && !(match r with | .readyErr _ => true | _ => false) then
+      -- (if the transport also failed in this poll the dispatch is shutting down with that error and may
+      -- have to wait for an outstanding queue permit before it completes)
+      if s.eofSeen && !b.failed && r != .readyOk && !(match r with | .readyErr _ => true | _ => false) then
         (s, some "inbound side ended but the dispatch did not stop in that poll")
       else (s, none)
   | _ => (s, none)
@@ -333,8 +335,11 @@ def checkC14Obs (s : C14St) : Obs → C14St × Option String
       | .pending =>
           let s := { s with readyP := s.readyP + 1 }
           if s.readyP > c14ReadyPLimit then (s, some "poll_ready retried again and again without returning to the executor") else (s, none)
-  | .tSend _ _ ok =>
-      let s' := { s with gotReady := false, unflushed := if ok then s.unflushed + 1 else s.unflushed, flushPendingAfterWrite := false, readyP := 0 }
+  | .tSend _ m ok =>
+      -- a failed write of anything but a request ends the connection (client: cancel; server: response)
+      let fatal := !ok && (match m with | .request _ _ _ _ => false | _ => true)
+      let s' := { s with gotReady := false, unflushed := if ok then s.unflushed + 1 else s.unflushed, flushPendingAfterWrite := false, readyP := 0,
+                         readFailed := s.readFailed || fatal }
       if s.failed then (s', some "write after the transport reported a failure")
       else if s.closed then (s', some "write after the transport was closed")
       else if !s.gotReady then (s', some "write without a preceding poll_ready → Ready")
